@@ -299,3 +299,52 @@ Proof. exact source_corrections. Qed.
 Theorem C04_source_edge_bias : forall l (prev : option (Z * Z)),
   Forall2 Qeq (edge_go (option_map snd prev) l) (py_edge_go prev l).
 Proof. exact source_edge_go. Qed.
+
+(* ---- control-flow ties of do_fix (tools/fnspecs/fix_flow.py) [loop ties e3] ----------------------------------------- *)
+From CNV Require Gen.FnFixFlow Gen.FnFixTail.
+From CNV Require Proofs.FnFixFlow Proofs.FnFixTail.
+
+(* do_fix's two load_adjust_coverages calls: the model's pipeline for the target / antitarget table is
+   load_adjust_coverages run with the four flags (skip_low, fix_gc, fix_edge, fix_rmask) of the first / second call as
+   they stand in the source -- (True, do_gc, do_edge, False) and (False, do_gc, False, do_rmask) *)
+Theorem C04_source_load_flags : forall c ref perm wing samp,
+  load_adjust c ref true perm wing samp = Proofs.FnFixFlow.py_load_target c ref perm wing samp /\
+  load_adjust c ref false perm wing samp = Proofs.FnFixFlow.py_load_anti c ref perm wing samp.
+Proof. exact Proofs.FnFixFlow.source_load_flags. Qed.
+
+(* ... and everything up to the subtraction of the reference runs exactly these two *)
+Theorem C04_source_fix_pre_flags : forall c o target anti ref,
+  fix_pre c o target anti ref
+  = match Proofs.FnFixFlow.py_load_target c ref (perm_t o) (wing_t o) target with
+    | inl e => inl e
+    | inr t =>
+      match Proofs.FnFixFlow.py_load_anti c ref (perm_a o) (wing_a o) anti with
+      | inl e => inl e
+      | inr a =>
+          let all := match a with [] => t | _ => sort_brows (t ++ a) end in
+          inr (map (fun b => bset_log2 (Qred (blog2 b - r_log2 (snd b))) b) all)
+      end
+    end.
+Proof. exact Proofs.FnFixFlow.source_fix_pre_flags. Qed.
+
+(* the rest of do_fix as generated: merge the antitarget bins iff there are any, (subtract,) apply_weights on the
+   columns "log2" / "spread" (do_cluster off), then center_all(skip_low=True) -- under every reading of table ids in
+   which the function inputs are the model's operations this is do_fix_gen *)
+Theorem C04_source_do_fix_tail : forall (c : cfg) (sq : Z -> Q) (bmv2 : list Q -> Q) (tbl : Z -> list brow)
+    (wtbl : Z -> list (brow * Q)) (add_fn : Z -> Z -> Z) (weights_fn : Z -> Z -> string -> string -> Z)
+    (center_fn : Z -> bool -> Z -> Z) (o : oracles) (target anti : list srow) (ref : list rrow)
+    (cnarr_id ref_id anti_id ref_anti_id build : Z) (cl2k clsk : string) (rl rr : Q),
+  Proofs.FnFixTail.tail_reading c sq bmv2 tbl wtbl add_fn weights_fn center_fn ->
+  load_adjust c ref true (perm_t o) (wing_t o) target = inr (tbl cnarr_id) ->
+  load_adjust c ref false (perm_a o) (wing_a o) anti = inr (tbl anti_id) ->
+  tbl ref_id = tbl cnarr_id -> tbl ref_anti_id = tbl anti_id ->
+  let '(out, _, lk, sk) :=
+    Proofs.FnFixTail.run_tail tbl add_fn weights_fn center_fn cnarr_id ref_id anti_id ref_anti_id build cl2k clsk rl rr in
+  do_fix_gen bmv2 c o sq target anti ref = inr (wtbl out) /\ lk = "log2"%string /\ sk = "spread"%string.
+Proof. exact Proofs.FnFixTail.source_do_fix_tail. Qed.
+
+(* the code's order (weights, then the final centring) and the model's (centring, then weights) give the same table:
+   no weight reads the sample log2 *)
+Theorem C04_source_weights_then_centre : forall c sq vt va l,
+  Proofs.FnFixTail.center_w c true (apply_weights sq vt va l) = apply_weights sq vt va (center_all c true l).
+Proof. exact Proofs.FnFixTail.center_w_apply_weights. Qed.
